@@ -3,7 +3,7 @@
    terminal-error notification. *)
 From Coq Require Import ZArith List Bool Arith Lia.
 From RecordUpdate Require Import RecordSet.
-From FV Require Import C03.Model C03.Base C03.InvA C03.Proofs.
+From FV Require Import C03.Model C03.Base C03.InvA C03.Proofs C04.Measure C04.Progress.
 Import ListNotations.
 Import RecordSetNotations.
 
@@ -99,5 +99,64 @@ Section Conn.
     sumc cw_notify (closers s) + rcl pre_notify (rp s) = 0 -> attempts s = ncas s.
   Proof.
     intros s H. destruct (reach_inv cs) as [A _]. fold s in A. pose proof (a_notify _ A). lia.
+  Qed.
+  Lemma one_terminal_error cs : let s := run repaired s0 cs in
+    attempts s <= 1 /\ length (notified s) <= attempts s /\ attempts s <= ncas s /\
+    (sumc cw_notify (closers s) + rcl pre_notify (rp s) = 0 -> attempts s = ncas s).
+  Proof. intros s. destruct (notify_once cs) as (A & B & C). repeat split; auto. exact (notify_exactly_one cs). Qed.
+
+  Lemma notify_never_blocks cs j cl : let s := run repaired s0 cs in
+    nth_error (closers s) j = Some cl -> cp cl = CDoneClosed ->
+    step repaired s (Closer j) =
+      Some (notify s (cerr cl) <| closers := upd (closers s) j (cl <| cp := CNotified |>) |>) /\
+    (notified (notify s (cerr cl)) = notified s ++ [cerr cl] <-> (enil s = false /\ length (errq s) < ecap s)).
+  Proof. intros s H H0. split; [exact (notify_step_enabled cs j cl H H0)|apply notify_spec]. Qed.
+
+  (* progress: after the CAS, as long as the shutdown is not complete some thread owned by the
+     connection has an enabled step, or the writer waits for the peer to read (and then the
+     peer's read is enabled); the measure bounds the number of owned steps *)
+  Lemma pumps_exit_no_stuck cs : let s := run repaired s0 cs in
+    cst s <> Running ->
+    (exists c, owned c = true /\ step repaired s c <> None) \/
+    (peer_owes_read s /\ (1 <= kc -> step repaired s PeerRead <> None)) \/
+    quiesced s.
+  Proof.
+    intros s Hr. destruct (reach_inv cs) as [A _]. fold s in A.
+    destruct (no_stuck s A Hr) as [H|[H|H]]; auto.
+    right; left. split; auto. intros Hk. apply peer_read_enabled; auto. apply A.
+    assert (forall cs, kcap (run repaired s0 cs) = kc) as K.
+    { intros cs1. apply (run_preserves repaired (fun x => kcap x = kc)); [|reflexivity].
+      intros x c x' Hx Hs. rewrite <- Hx. clear Hx. unfold step in Hs. destruct (panic x); [discriminate|]. destruct c.
+      - unfold send_step in Hs; dmatch Hs; inv Hs; reflexivity.
+      - unfold writer_step in Hs; dmatch Hs; inv Hs; reflexivity.
+      - unfold reader_step in Hs; dmatch Hs;
+          try match goal with Hc : close_step _ _ _ _ _ = _ |- _ => unfold close_step, fin_step, notify in Hc; dmatch Hc; inv Hc end;
+          inv Hs; reflexivity.
+      - dmatch Hs;
+          try match goal with Hc : close_step _ _ _ _ _ = _ |- _ => unfold close_step, fin_step, notify in Hc; dmatch Hc; inv Hc end;
+          inv Hs; reflexivity.
+      - unfold fin_step in Hs; dmatch Hs; inv Hs; reflexivity.
+      - dmatch Hs; inv Hs; reflexivity.
+      - dmatch Hs; inv Hs; reflexivity.
+      - dmatch Hs; inv Hs; reflexivity.
+      - dmatch Hs; inv Hs; reflexivity.
+      - dmatch Hs; inv Hs; reflexivity.
+      - dmatch Hs; inv Hs; reflexivity.
+      - dmatch Hs; inv Hs; reflexivity. }
+    unfold s. rewrite K. exact Hk.
+  Qed.
+
+  Lemma pumps_exit_bounded cs cs' : let s := run repaired s0 cs in
+    cst s <> Running -> owned_steps s cs' + mu (run repaired s cs') <= mu s.
+  Proof. intros s Hr. apply owned_steps_bounded; auto. apply (proj1 (reach_inv cs)). Qed.
+
+  (* what "quiesced" gives: every Close/ForceClose call has returned, both pumps have exited,
+     the peer sees the stream end *)
+  Lemma quiesced_means s j cl : quiesced s -> nth_error (closers s) j = Some cl ->
+    (cp cl = CStart \/ exists w, cp cl = CRet w) /\ livew (wp s) = 0 /\ liver (rp s) = 0 /\ fin s = true.
+  Proof.
+    intros (Q1 & Q2 & Q3 & Q4 & Q5) Hn. repeat split; auto.
+    pose proof (sumc_pos cw_mid _ _ _ Hn) as P. unfold cw_mid in P at 1.
+    destruct (cp cl); cbn in P; try lia; eauto.
   Qed.
 End Conn.
